@@ -171,6 +171,14 @@ pub fn run(tier: Tier, seed: u64) -> i32 {
             exprs.push(bin(op, lit(a), lit(b)));
         }
     }
+    // evaluation is strict: an operand that cannot be evaluated is an error whatever the other one is
+    for op in BINOPS {
+        for other in [0i64, 1] {
+            exprs.push(bin(op, lit(other), group(bin(BinOp::Div, lit(1), lit(0)))));
+            exprs.push(bin(op, group(bin(BinOp::Rem, lit(1), lit(0))), lit(other)));
+            exprs.push(bin(op, lit(other), random(lit(1))));
+        }
+    }
     exprs.push(bin(BinOp::Div, un(UnOp::Neg, bin(BinOp::Sub, un(UnOp::Neg, lit(i64::MAX)), lit(1))), un(UnOp::Neg, lit(1))));
     exprs.push(bin(BinOp::Div, bin(BinOp::Shl, lit(1), lit(63)), un(UnOp::Neg, lit(1))));
     exprs.push(bin(BinOp::Rem, bin(BinOp::Shl, lit(1), lit(63)), un(UnOp::Neg, lit(1))));
